@@ -407,7 +407,24 @@ func unwrapAll(r *ev.Run, prop string, cloud *awskms.Cloud, regions []string, su
 			key := fmt.Sprintf("%p|%d|%v|%s", cloud, uv, conf, upref)
 			b, ok := unwrapCache[key]
 			if !ok {
+				// keys configured by alias on the writing side: every other reader is configured with the key ARNs
+				// instead (the same keys under another name; entries are selected by region, not by the name recorded
+				// in the envelope)
+				saved := map[string]string{}
+				if len(unwrapCache)%2 == 1 {
+					for name, reg := range cloud.Regions {
+						if reg.Alias != "" {
+							saved[name], reg.Alias = reg.Alias, ""
+						}
+					}
+				}
 				k, _, err := build(uv, cloud, conf, upref)
+				for name, a := range saved {
+					cloud.Regions[name].Alias = a
+				}
+				if len(saved) > 0 {
+					r.Count("readers_configured_with_key_arns_for_alias_written_envelopes", 1)
+				}
 				if err != nil {
 					r.Violation("build-failed", fmt.Sprintf("building v%d plugin for %v: %v", uv, conf, err), nil)
 					continue
